@@ -1,5 +1,6 @@
 import PB.Model.Db
 import PB.Model.DbInj
+import PB.Gen.DbIter
 /-
 Line protocol of the C02 / C03 drivers: parsing of op lines, canonical printing of results, and the
 multi-interface system state (one shared controller storage, per-interface caches, subscriptions).
@@ -20,6 +21,37 @@ def splitChars (sep : Char) (cs : List Char) : List (List Char) :=
 def splitStr (sep : Char) (s : String) : List String := (splitChars sep s.toList).map String.ofList
 
 def parseInt (s : String) : Option Int := s.toInt?
+
+/-! Keys and key prefixes are opaque strings. In op lines and outputs the characters the protocol itself uses
+    (space and everything below, `~`, DEL) and the escape character `^` are written `^` + two hex digits
+    (see `EncKey` / `DecKey` in harness/dbx). -/
+
+def hexDigit (n : Nat) : Char := if n < 10 then Char.ofNat (48 + n) else Char.ofNat (55 + n)
+
+def hexVal (c : Char) : Option Nat :=
+  if '0' ≤ c ∧ c ≤ '9' then some (c.toNat - 48)
+  else if 'A' ≤ c ∧ c ≤ 'F' then some (c.toNat - 55)
+  else none
+
+def needsEsc (c : Char) : Bool := c.toNat ≤ 32 || c = '~' || c = '^' || c.toNat = 127
+
+def encKeyChars : List Char → List Char
+  | [] => []
+  | c :: cs => if needsEsc c then '^' :: hexDigit (c.toNat / 16) :: hexDigit (c.toNat % 16) :: encKeyChars cs
+               else c :: encKeyChars cs
+
+def encKey (k : String) : String := String.ofList (encKeyChars k.toList)
+
+def decKeyChars : List Char → Option (List Char)
+  | [] => some []
+  | '^' :: a :: b :: cs =>
+    match hexVal a, hexVal b, decKeyChars cs with
+    | some x, some y, some r => some (Char.ofNat (16 * x + y) :: r)
+    | _, _, _ => none
+  | '^' :: _ => none
+  | c :: cs => (decKeyChars cs).map (c :: ·)
+
+def decKey (t : String) : Option String := (decKeyChars t.toList).map String.ofList
 
 /-- `123`, `-5`, `@+3600`, `@-100`, `@` -/
 def parseTs (s : String) : Option Int :=
@@ -138,10 +170,10 @@ def showPayload (r : Rec) : String :=
   | .raw => if r.raw.isEmpty then "-" else r.raw
   | _ => showFields r.fields
 
-def showRec (r : Rec) : String := s!"{r.key}~{showMeta r.md}~{showPayload r}"
+def showRec (r : Rec) : String := s!"{encKey r.key}~{showMeta r.md}~{showPayload r}"
 
 /-- The database API's JSON rendering is compared on key and data only. -/
-def showRecNoMeta (r : Rec) : String := s!"{r.key}~{showPayload r}"
+def showRecNoMeta (r : Rec) : String := s!"{encKey r.key}~{showPayload r}"
 
 /-! ### conditions -/
 
@@ -316,11 +348,20 @@ def maintainN : Nat → Cfg → Store → Int → Int → Store
   | n + 1, cfg, s, now, thr => maintainN n cfg (maintain cfg s now thr) now thr
 
 def showDump (s : Store) : String :=
-  let l := (sortRecs (s.filter dumpVisible)).map (fun r => s!"{r.key}~{showMeta r.md}")
+  let l := (sortRecs (s.filter dumpVisible)).map (fun r => s!"{encKey r.key}~{showMeta r.md}")
   if l.isEmpty then "ok 0" else s!"ok {l.length} " ++ " ".intercalate l
 
-def handle (s : Sys) (line : String) : Sys × String :=
-  match (line.splitOn " ").filter (· ≠ "") with
+/-- Ops whose third token is a record key. -/
+def keyOps : List String :=
+  ["get", "exists", "put", "putnew", "del", "reput", "setabs", "setrel", "mksecret", "mkcrown", "insert"]
+
+/-- Position of the key / key-prefix token of an op. -/
+def keyPos (op : String) : Option Nat :=
+  if keyOps.contains op || op = "pmput" || op = "query" || op = "purge" then some 2
+  else if op = "sub" then some 3 else none
+
+def handleToks (s : Sys) (toks : List String) : Sys × String :=
+  match toks with
   | ["cfg", b, sh] =>
     (match parseBackend b, parseBool sh with
      | some b, some sh =>
@@ -485,6 +526,24 @@ def handle (s : Sys) (line : String) : Sys × String :=
            | none => (s, "setfailed")
            | some fs => s.exec "@api" (.put { r with fields := fs })))
      | _, _ => (s, "bad-op"))
+  | ["pq", a, _pfx, p, op, ks] =>
+    -- a parked query against concurrent writes (see `pq` in harness/dbx): which records arrive depends on the schedule
+    -- (model `PB.Iter.HandOver`, run on the implementation only); for replays the writes of interface `p` are applied,
+    -- so that the operations that follow agree, and the buffer capacity of the source is shown
+    (match s.iface a, s.iface p with
+     | some _, some _ =>
+       let keys := (splitStr ',' ks).filterMap decKey
+       let ops : List Op := keys.flatMap (fun k =>
+         match op with
+         | "mksecret" => [Op.mkSecret k]
+         | "mkcrown" => [Op.mkCrown k]
+         | "mkboth" => [Op.mkSecret k, Op.mkCrown k]
+         | "del" => [Op.delete k]
+         | "expire" => [Op.setAbs k 5]
+         | _ => [])
+       let s' := ops.foldl (fun st o => (st.exec p o).1) s
+       (s', s!"ok cap={PB.Gen.DbIter.nextCap} (arrivals depend on the schedule)")
+     | _, _ => (s, "bad-op"))
   | ["flush", id] => s.exec id .flush
   | ["clear", id] => s.exec id .clear
   | ["sub", id, sid, p, c] =>
@@ -499,5 +558,24 @@ def handle (s : Sys) (line : String) : Sys × String :=
        ({ s with subs := s.subs.map (fun x => if x.id == sid then { x with feed := [] } else x) }, showRecs sb.feed)
      | none => (s, "bad-op"))
   | _ => (s, "bad-op")
+
+/-- One op line: the key token is decoded; a storage backend that does not take the key (`Backend.acceptsKey`)
+    refuses every single-key operation before anything else happens (`getRecord` / `getMeta` ask the storage first). -/
+def handle (s : Sys) (line : String) : Sys × String :=
+  let toks := (line.splitOn " ").filter (· ≠ "")
+  match toks with
+  | [] => (s, "bad-op")
+  | op :: _ =>
+    match keyPos op with
+    | none => handleToks s toks
+    | some p =>
+      match toks[p]? with
+      | none => handleToks s toks
+      | some t =>
+        match decKey t with
+        | none => (s, "bad-op")
+        | some k =>
+          if keyOps.contains op && !s.inj && (s.iface (toks.getD 1 "")).isSome && !s.cfg.backend.acceptsKey k then (s, "badkey")
+          else handleToks s (toks.set p k)
 
 end PB.Db.Proto
